@@ -147,7 +147,53 @@
       `C10_audit_nofit`) pass the audit and the rows are exhaustive (`C10_rows_exhaustive`), so
       `C10_full` holds as soon as row 3 does.
 
-  Proved: (a)–(n).  Not proved, precisely:
+  (o) row 3 except the comparison: `C10_audit_authenticated_answer` — for an authenticated request that a
+      loaded zone answers every clause of the audit holds except the second half of "answered normally"
+      (hypothesis `hB`), i.e. (3a) is closed: the header view of the answering writer gives RCODE 0, 2
+      or 3, never 9 (`ServerAnswer.view_handle_flags`, Proofs/ServerAnswerHdrLog: the answering logic logs
+      only `set_aa` and `set_rcode(NXDOMAIN)`, never `set_tc` / `clear_rrs`; zone-generic), the
+      extended-RCODE octet of the OPT is 0 (`ServerContent.ednsUp0_handleNonAxfrQueryL`), the reply fits
+      (`tsigProcess_rows`), and the first half of "answered normally" holds — TC only over UDP and then
+      without data (`signed_answer_facts_of_run`, `decoded_answer_tsig`).  `C10_row3_of_compare`:
+      `C10_row3` follows from `C10_row3_compare`, the comparison with the plain response alone.
+      Third recorded correction of the *oracle* (`Spec.ServerTsig.audit`): as first written, the clause
+      "answered normally" compared the signed answer with the plain one whenever neither is truncated.
+      That is stronger than what any writer with a reserved TSIG can do; under `plainComparable` the two
+      runs start from the same scan state and differ only in room (`available` smaller by the reserved
+      TSIG length R in the signed run).  Counter-examples (none a server defect):
+        · F1, TCP, `answer-header-differs`: a *mandatory* record (answer RRset, NS, glue, negative SOA) that
+          fits 65535 octets only without the reserved TSIG gets `Truncation` in the signed run — over
+          TCP the epilogue is `clear_rrs`, AA clear, SERVFAIL, TC not set — and is sent in the plain
+          run: d.tc = pd.tc = false, d.rcode = 2 ≠ 0 = pd.rcode.  (Over UDP the same sets TC, which the
+          clause allows.)  Needs an answer of size in (65535 − R, 65535], e.g. ~250 TXT records.
+        · F2, `additional-differs`: optional additional-section calls (`execute_allowing_truncation`) are
+          dropped one by one and the loop goes on.  MX / NS / SRV RRset with two in-zone targets, address
+          RRsets of sizes B and b, room left x (signed) and x + R (plain) with x < B ≤ x + R and
+          x + R − B < b ≤ x (x = 150, R = 80, B = 160, b = 96): signed drops the first and keeps the
+          second, plain keeps the first and drops the second — neither truncated, same RCODE / AA /
+          answer / authority, but the signed additional section is not a sub-multiset of the plain one.
+        · F3, `answer-header-differs`: an optional address RRset whose later record has unrenderable
+          RDATA: the signed run runs out of room before reaching it (`Truncation`, optional ⇒ dropped,
+          NOERROR), the plain run reaches it (`InvalidRdata` ⇒ SERVFAIL).
+      The audit now makes the comparison only when, besides `plainComparable`, the plain response
+      leaves room for the TSIG RR — `pb.size + (uncompressed TSIG RR) ≤ limit` (excludes F1 and F2: in F1
+      the plain answer is within R of 65535, in F2 the plain run ends within R of the limit) — and not
+      when the plain response alone is SERVFAIL (F3).  Otherwise the clause is skipped; the TC clause and
+      all TSIG / MAC clauses still apply, and answers within R octets of the limit are audited by C04 /
+      C05's own oracles.  On the quick corpus (24 752 cases, 5 118 authenticated) the room guard skips
+      no comparison (measured with a probe tag), and the SERVFAIL guard fires only where the former audit
+      would have tagged `answer-header-differs`, which that corpus never did.
+      What remains: `C10_row3_compare` (with the two guards as premises) — under the guards the two
+      runs make the same calls with the same results (every call the plain run accepted fits the
+      signed room, since the whole plain result plus R fits; every call the plain run rejected with
+      `Truncation` is rejected by the signed run, which has less room), so the logs, hence the views,
+      coincide.  That two-run simulation over the writer's internals and query.rs (both directions:
+      "accepted in the big room and the result fits the small one ⇒ accepted in the small one" is
+      C04's `Sim`; "rejected with `Truncation` in the big room ⇒ rejected with `Truncation` in the small
+      one" and the insensitivity to the ARCOUNT / TSIG-slot / `limit` fields are not yet proved) is the
+      one missing piece of `C10_full`.
+
+  Proved: (a)–(o).  Not proved, precisely:
   (1) `C10_row3` — the one obligation `C10_full` is reduced to (`C10_of_row3`): an authenticated request
       that a loaded zone *answers* passes the audit.  Everything that does not depend on the row is in
       place and applies verbatim (`auditResponse_authenticated`; `response_mac_audit` and
@@ -1550,7 +1596,10 @@ theorem C10_audit_authenticated_nodata (cfg : Cfg) (cat : List Spec.Server.ZoneC
         r'.cursor ((req.getD 2 0).toNat / 8 % 16) = v →
       dm.rcode = (Spec.Server.verdictRcode v).1 % 16 → dm.aa = false → dm.tc = false → dm.an = [] → dm.ns = [] →
       (∀ x ∈ dm.ar, x.ty = 41 ∨ x.ty = 250) →
-      AnsweredNormally dm (decide (tr = .udp)) (Spec.ServerTsig.plainComparable cat cfg.payload req) plain) :
+      AnsweredNormally dm (decide (tr = .udp)) (Spec.ServerTsig.plainComparable cat cfg.payload req)
+        ((Spec.Tsig.canonName kn.labels).length + 10 + (Spec.Tsig.canonName (fieldsOf alg.labels rest).algName).length + 16 +
+        (Spec.Tsig.outputSizeOf (fieldsOf alg.labels rest).algName).getD 0 + 0)
+        (if decide (tr = .udp) then (Spec.Server.specScan cat cfg.payload req).limitUdp else 65535) plain) :
     (Spec.ServerTsig.audit hmSpec cat cfg.payload (specKeys cfg.keys) req now (tr = .udp)
       (toResp (handleMessage cfg tr now 65535 req)) plain).1 = [] := by
   obtain ⟨hrM, iq, ie, il⟩ := h.scanM
@@ -1654,6 +1703,154 @@ theorem C10_audit_authenticated_nodata (cfg : Cfg) (cat : List Spec.Server.ZoneC
     exact this
 
 open QV.ServerScan in
+/-- **audit of an authenticated request that a loaded zone answers** (row 3), the second half of the
+    clause "answered normally" — the comparison with the response to the stripped request when neither
+    response is truncated — being the hypothesis `hB`: all the other clauses hold.  `tsig-missing`,
+    `two-tsig`, `tsig-rdata`, `tsig-not-last`, `tsig-class-ttl`, `key-name`, `alg-name`, `fudge`,
+    `original-id`, `id`, `tsig-error-*`, `notauth-on-authenticated` (the RCODE is 0, 2 or 3:
+    `view_handle_flags`), `mac-length`, `response-mac`, `other-data`, `time-signed` never arise, the
+    extended-RCODE octet of the OPT is 0 (`ednsUp0_handleNonAxfrQueryL`), and the first half of "answered
+    normally" holds: TC is set only over UDP and then the response carries no data (`tc-over-tcp`,
+    `tc-with-data` never arise).  (`ServerContent.signed_answer_facts_of_run`, `decoded_answer_tsig`.) -/
+theorem C10_audit_authenticated_answer (cfg : Cfg) (hcfg : ServerSafety.CfgWF cfg) (cat : List Spec.Server.ZoneCfg)
+    (tr : Transport) (now : Nat)
+    (req : Bytes) (hpay : 512 ≤ cfg.payload) (hp16 : cfg.payload ≤ 65535) (hk : KeysOK cfg.keys)
+    {nowT : TimeSigned} {t : ReadTsigRr} {mw : Bytes} {r' : Reader.Reader} {question : Option (WName × Nat × Nat)}
+    {d : Spec.Server.Delim} {kn alg : WName} {rest : List UInt8}
+    (h : AuditRun cfg cat tr now req nowT t mw r' question d kn alg rest)
+    (hrow : ServerContent.RowAuthAnswer cfg tr now 65535 req t mw r')
+    (b : Bytes) (hb : handleMessage cfg tr now 65535 req = .ok (some b)) (plain : Spec.ServerTsig.Resp)
+    (hB : ∀ dm pb pd, Spec.specDecodeMsg b = some dm → plain = .bytes pb → Spec.specDecodeMsg pb = some pd →
+      dm.tc = false → pd.tc = false → Spec.ServerTsig.plainComparable cat cfg.payload req = true →
+      pb.size + ((Spec.Tsig.canonName kn.labels).length + 10 + (Spec.Tsig.canonName (fieldsOf alg.labels rest).algName).length + 16 +
+        (Spec.Tsig.outputSizeOf (fieldsOf alg.labels rest).algName).getD 0 + 0) ≤
+        (if decide (tr = .udp) then (Spec.Server.specScan cat cfg.payload req).limitUdp else 65535) → (pd.rcode = 2 → dm.rcode = 2) →
+      dm.rcode = pd.rcode ∧ dm.aa = pd.aa ∧
+      Spec.ServerTsig.sameMultiset (dm.an.map Spec.ServerTsig.rrKey) (pd.an.map Spec.ServerTsig.rrKey) = true ∧
+      Spec.ServerTsig.sameMultiset (dm.ns.map Spec.ServerTsig.rrKey) (pd.ns.map Spec.ServerTsig.rrKey) = true ∧
+      Spec.ServerTsig.subMultiset (Spec.ServerTsig.plainRrs dm.ar) (Spec.ServerTsig.plainRrs pd.ar) = true) :
+    (Spec.ServerTsig.audit hmSpec cat cfg.payload (specKeys cfg.keys) req now (tr = .udp)
+      (toResp (handleMessage cfg tr now 65535 req)) plain).1 = [] := by
+  obtain ⟨hrM, iq, ie, il⟩ := h.scanM
+  rw [audit_eq_of_run h, hb]
+  simp only [toResp]
+  obtain ⟨r'', S, hT, hev⟩ := hrow
+  obtain ⟨nowT', a, key, kn', F, mac, bd, vw, e1, e2, e3, e4, e5, hf, hG, hty, hbv, hh, hrc3, htcv, hts, he, hup⟩ :=
+    ServerContent.signed_answer_facts_of_run cfg hcfg tr now 65535 req (minBuf_le tr _ hp16) hpay hp16 hrM t mw r' question
+      h.hrun r'' S hT hev b hb
+  rw [h.hnow] at e1; cases e1
+  have hkw : kn'.wire = Tsig.lowerName kn.wire := by rw [ServerAnswer.parse_wire _ _ e4, h.ht]; rfl
+  have hkwf := parse_wf e4
+  -- the reply fits
+  have h3 := ServerContent.preTsig_size3 cfg tr 65535 req (minBuf_le tr _ hp16) hpay hrM
+  have hfit : TsigFits (preTsigState cfg tr 65535 req) (.response (toWriterAlg a) t.mac key.secret)
+      (prepOf kn' t nowT 0) := by
+    unfold tsigAfter at hT
+    rw [h.hnow] at hT
+    obtain ⟨kn2, hk2, hc⟩ := ServerContent.tsigProcess_rows realHmac cfg.keys _ h3 t mw.toList nowT r' _ S hT
+    rw [e4] at hk2; cases hk2
+    rcases hc with ⟨_, _, _, _, _, _, hn⟩ | ⟨a2, key2, ha2, hk2, _, hc⟩
+    · cases hn
+    · rw [e2] at ha2; cases ha2
+      rw [e3] at hk2; cases hk2
+      rcases hc with ⟨hf', _⟩ | ⟨_, hn⟩
+      · exact hf'
+      · cases hn
+  rw [h.ht] at e2 e3 e5 hfit hts
+  have hmo := modelOutcome_authenticated cfg.keys nowT kn alg rest mw.toList a key e2 e3 e5
+  rw [hmo]
+  have hfa := fieldsAgree_of (Tsig.lowerName kn.wire) alg rest h.h10
+  have hfit' : auditNeed (Spec.Server.specScan cat cfg.payload req)
+      ⟨kn.labels, fieldsOf alg.labels rest, mw.toList, .authenticated,
+        Spec.ServerTsig.findKey (specKeys cfg.keys) kn.labels⟩ ≤
+      auditLimit (Spec.Server.specScan cat cfg.payload req) (decide (tr = .udp)) := by
+    rw [auditNeed_eq _ _ iq ie kn alg h.hkn h.halg, auditLimit_eq _ _ il tr]
+    have hkl : kn'.wire.length = kn.wire.length := by rw [hkw]; simp [Tsig.lowerName]
+    rw [← reserved_of_auth kn alg h.halg kn' hkl a e2 (viewRr kn alg rest).mac key.secret (viewRr kn alg rest) nowT]
+    have := (C10_audit_fits cfg tr 65535 req (minBuf_le tr _ hp16) hpay hrM _ _).mp hfit
+    cases tr <;> exact this
+  obtain ⟨l1, l2⟩ := prepOf_lengths kn' (viewRr kn alg rest) nowT 0
+  obtain ⟨dm, hdm⟩ := ServerContent.decodes_of_good F _ hG b mac hf
+  obtain ⟨g1, g2, g3, g4, g5, g6, ar', opt, o, q1, qA, qT, qO, q3, q4, q5, q6, q7⟩ :=
+    ServerContent.decoded_answer_tsig F bd vw hG hty hbv hh _ hts (algName_wf _) l1 l2 hup b mac hf dm hdm
+  simp only [respTsig] at q6 q7
+  obtain ⟨rkn, hl1, hl2⟩ := labelsOf_of_lower o.owner kn' hkwf q6
+  have hl3 : rkn.map (·.map Spec.Tsig.lower) = kn.labels.map (·.map Spec.Tsig.lower) := by
+    rw [hl2]
+    exact (labels_lower_iff kn' kn hkwf h.hkn).mpr (by rw [hkw, lowerName_idem])
+  have hlastT : dm.ar.getLast?.map (·.ty) = some 250 := by rw [q1]; simp [q3]
+  have htsF : dm.ar.filter (fun r => r.ty = 250) = [o] := by
+    rw [q1]
+    exact filter_snoc_unique (fun r : Spec.DRr => decide (r.ty = 250))
+      (fun r => decide (r.ty = 1 ∨ r.ty = 28 ∨ r.ty = 41)) (ar' ++ opt) o
+      (fun x hx => decide_eq_true (by
+        rcases List.mem_append.mp hx with hx | hx
+        · rcases qT x hx with h1 | h1
+          · exact Or.inl h1
+          · exact Or.inr (Or.inl h1)
+        · exact Or.inr (Or.inr (qO x hx)))) (fun x hx => by
+        have := of_decide_eq_true hx
+        rcases this with h1 | h1 | h1 <;> simp [h1]) (decide_eq_true q3)
+  have hidd : dm.id = Spec.Server.hdr req 0 := by
+    rw [decode_id b dm hdm]
+    exact (ServerScan.response_echo cfg tr now 65535 req (minBuf_le tr _ hp16) hpay b hb).1
+  have hnat : ∀ x : TimeSigned, Spec.Tsig.nat48 x.asSlice = x.toUnix := fun x => by
+    simp [Spec.Tsig.nat48, TimeSigned.asSlice, TimeSigned.toUnix]; omega
+  have hnow' : Spec.Tsig.nat48 nowT.asSlice = now := by rw [hnat, toUnix_tryFromUnix now nowT h.hnow]
+  have hoidm : (ReadTsigRr.originalId (viewRr kn alg rest)).toNat % 65536 = (fieldsOf alg.labels rest).originalId := by
+    rw [hfa.origId]; exact Nat.mod_eq_of_lt (UInt16.toNat_lt _)
+  have halgL : (algName (toWriterAlg a)).labels.map (·.map Spec.Tsig.lower) =
+      alg.labels.map (·.map Spec.Tsig.lower) :=
+    (labels_lower_iff _ alg (algName_wf _) h.halg).mpr (by rw [stop_algName alg a e2, lowerName_idem])
+  -- the MAC
+  have hlowk : Tsig.lowerName kn'.wire = kn'.wire := by rw [hkw, lowerName_idem]
+  have wf := prepOf_wf kn' (viewRr kn alg rest) nowT 0 (ServerContent.labels_lower_of_wire kn' hkwf hlowk) (by omega)
+  have hreq : (viewRr kn alg rest).mac.length ≤ 65535 := by
+    have hm' : (viewRr kn alg rest).mac = (fieldsOf alg.labels rest).mac := hfa.mac.symm
+    rw [hm']
+    show ((rest.drop 10).take (Spec.Tsig.field16 rest 8)).length ≤ 65535
+    rw [List.length_take]
+    have : Spec.Tsig.field16 rest 8 ≤ 65535 := by
+      unfold Spec.Tsig.field16
+      have := (rest.getD 8 0).toNat_lt; have := (rest.getD (8 + 1) 0).toNat_lt; omega
+    omega
+  obtain ⟨rest', o', hdar', hlen, k, hfk, hall⟩ := ServerContent.response_mac_audit cfg.keys hk kn h.hkn a key e3
+    F _ hG _ wf _ hreq _ hts b mac hf dm hdm
+  rw [q1] at hdar'
+  obtain ⟨_, eo⟩ := List.append_inj' hdar' rfl
+  simp only [List.cons.injEq, and_true] at eo
+  subst eo
+  have e18 : Writer.XR_BADTIME = 18 := by decide
+  have hAN : AnsweredNormally dm (decide (tr = .udp)) (Spec.ServerTsig.plainComparable cat cfg.payload req)
+      ((Spec.Tsig.canonName kn.labels).length + 10 + (Spec.Tsig.canonName (fieldsOf alg.labels rest).algName).length + 16 +
+        (Spec.Tsig.outputSizeOf (fieldsOf alg.labels rest).algName).getD 0 + 0)
+      (if decide (tr = .udp) then (Spec.Server.specScan cat cfg.payload req).limitUdp else 65535) plain := by
+    intro pb pd hpl hpd
+    refine ⟨fun htc => ?_, fun htc hptc hcmp hroom hrc2 => hB dm pb pd hdm hpl hpd htc hptc hcmp hroom hrc2⟩
+    rw [g3] at htc
+    obtain ⟨t1, t2, t3, t4⟩ := htcv htc
+    rw [t2] at g4; rw [t3] at g5; rw [t4] at qA
+    have ean : dm.an = [] := List.length_eq_zero_iff.mp g4.length.symm
+    have ens : dm.ns = [] := List.length_eq_zero_iff.mp g5.length.symm
+    have ear : ar' = [] := List.length_eq_zero_iff.mp qA.length.symm
+    refine ⟨by rw [t1]; rfl, ?_⟩
+    unfold Spec.Server.noData
+    rw [ean, ens, q1, ear]
+    simp only [List.isEmpty_nil, Bool.true_and, List.nil_append, List.all_append, List.all_cons, List.all_nil, Bool.and_true,
+      Bool.and_eq_true, List.all_eq_true, Bool.or_eq_true, decide_eq_true_eq]
+    exact ⟨fun x hx => Or.inl (qO x hx), Or.inr q3⟩
+  refine auditResponse_authenticated hmSpec _ _ _ _ _ now _ _ _ b plain dm o _ rkn hdm hfit' htsF q7 hl1 hlastT q4 q5
+    hl3 halgL rfl hoidm hidd rfl g6 ?_ ?_ ⟨k, hfk, ?_⟩ rfl hnow' hAN
+  · rw [g1]; rcases hrc3 with h0 | h0 | h0 <;> rw [h0] <;> decide
+  · show (mac.getD []).length = (Spec.Tsig.outputSizeOf alg.labels).getD 0
+    have e2' : Algorithm.fromName (Tsig.lowerName alg.wire) = some a := e2
+    rw [hlen, outputSizeOf_view alg h.halg, e2']; rfl
+  · have := hall rkn hl2
+    have hm' : (fieldsOf alg.labels rest).mac = (viewRr kn alg rest).mac := hfa.mac
+    rw [hm']
+    exact this
+
+open QV.ServerScan in
 /-- **row 2 passes the audit**: an authenticated request with a no-data verdict, `plain` being the
     response to the request without its TSIG record — "answered normally" included
     (`plain_nodata_of_comparable`: under the audit's guard the stripped request gets the unsigned
@@ -1673,7 +1870,7 @@ theorem C10_audit_row2 (cfg : Cfg) (cat : List Spec.Server.ZoneCfg) (tr : Transp
         | none => .none)).1 = [] := by
   refine C10_audit_authenticated_nodata cfg cat tr now req hpay hp16 hk h hrow b hb _ ?_
   intro dm v hdm hvv hev hrc haa htc han hns har pb pd hplain hpd
-  refine ⟨fun hc => (by rw [htc] at hc; cases hc), fun _ hptc hcmp => ?_⟩
+  refine ⟨fun hc => (by rw [htc] at hc; cases hc), fun _ hptc hcmp _ _ => ?_⟩
   obtain ⟨_, iq, _, _⟩ := h.scanM
   rw [h.hcur] at hev
   obtain ⟨p, hstrip, pb', hpb', hall⟩ := plain_nodata_of_comparable cfg cat tr now req hpay hp16 hreq d h.hfind h.hpos
@@ -1709,6 +1906,47 @@ def C10_row3 : Prop :=
           (match Spec.ServerTsig.stripTsigRr req with
             | some p => toResp (handleMessage cfg tr now 65535 p)
             | none => .none)).1 = []
+
+open QV.ServerScan in
+/-- what remains of row 3 once `C10_audit_authenticated_answer` is applied: the comparison of the decoded
+    response with the decoded response to the request without its TSIG record, when neither is
+    truncated and the audit's guard `plainComparable` holds — same RCODE and AA, answer and authority
+    sections equal as multisets, own additional records a sub-multiset.
+    (With the audit's two further guards as premises — the plain response leaves room for the TSIG RR;
+    not "plain SERVFAIL, signed not" — without which the statement is false: see the header, third
+    correction of the oracle, F1–F3.) -/
+def C10_row3_compare : Prop :=
+  ∀ (cfg : Cfg) (cat : List Spec.Server.ZoneCfg) (tr : Transport) (now : Nat) (req : Bytes),
+    now < 2 ^ 48 → ServerSafety.CfgWF cfg → 512 ≤ cfg.payload → cfg.payload ≤ 65535 → req.size ≤ Rdata.USIZE_MAX →
+    KeysOK cfg.keys →
+    ∀ (nowT : TimeSigned) (t : ReadTsigRr) (mw : Bytes) (r' : Reader.Reader) (question : Option (WName × Nat × Nat))
+      (d : Spec.Server.Delim) (kn alg : WName) (rest : List UInt8),
+      AuditRun cfg cat tr now req nowT t mw r' question d kn alg rest →
+      ServerContent.RowAuthAnswer cfg tr now 65535 req t mw r' →
+      ∀ b, handleMessage cfg tr now 65535 req = .ok (some b) →
+        ∀ dm pb pd, Spec.specDecodeMsg b = some dm →
+          (match Spec.ServerTsig.stripTsigRr req with
+            | some p => toResp (handleMessage cfg tr now 65535 p)
+            | none => .none) = .bytes pb →
+          Spec.specDecodeMsg pb = some pd →
+          dm.tc = false → pd.tc = false → Spec.ServerTsig.plainComparable cat cfg.payload req = true →
+      pb.size + ((Spec.Tsig.canonName kn.labels).length + 10 + (Spec.Tsig.canonName (fieldsOf alg.labels rest).algName).length + 16 +
+        (Spec.Tsig.outputSizeOf (fieldsOf alg.labels rest).algName).getD 0 + 0) ≤
+        (if decide (tr = .udp) then (Spec.Server.specScan cat cfg.payload req).limitUdp else 65535) → (pd.rcode = 2 → dm.rcode = 2) →
+          dm.rcode = pd.rcode ∧ dm.aa = pd.aa ∧
+          Spec.ServerTsig.sameMultiset (dm.an.map Spec.ServerTsig.rrKey) (pd.an.map Spec.ServerTsig.rrKey) = true ∧
+          Spec.ServerTsig.sameMultiset (dm.ns.map Spec.ServerTsig.rrKey) (pd.ns.map Spec.ServerTsig.rrKey) = true ∧
+          Spec.ServerTsig.subMultiset (Spec.ServerTsig.plainRrs dm.ar) (Spec.ServerTsig.plainRrs pd.ar) = true
+
+open QV.ServerScan in
+/-- **row 3 reduced to the comparison with the plain response**: every other clause of the audit holds
+    for an authenticated request that a loaded zone answers (`C10_audit_authenticated_answer`) -/
+theorem C10_row3_of_compare (hc : C10_row3_compare) : C10_row3 := by
+  intro cfg cat tr now req hnow hcfg hpay hp16 hreq hk nowT t mw r' question d kn alg rest h hrow b hb
+  exact C10_audit_authenticated_answer cfg hcfg cat tr now req hpay hp16 hk h hrow b hb _
+    (fun dm pb pd hdm hpl hpd htc hptc hcmp hroom hrc2 =>
+      hc cfg cat tr now req hnow hcfg hpay hp16 hreq hk nowT t mw r' question d kn alg rest h hrow b hb dm pb pd
+        hdm hpl hpd htc hptc hcmp hroom hrc2)
 
 open QV.ServerScan in
 /-- **`C10_full` from row 3**: requests that do not reach a TSIG record (`C10_audit_pre_tsig`), rejected
